@@ -67,7 +67,7 @@ pub fn run() {
         let pat = a.get("faults").cloned().unwrap_or_default();
         let level = a.get("level").cloned().unwrap_or_else(|| "platform".into());
         let out = match level.as_str() {
-            "platform" => platform_case(id, len, nsend, nrecv, nshm, &pat),
+            "platform" => platform_case(id, len, nsend, nrecv, nshm, &pat, a.get("rintr").map(|s| s.parse().unwrap()).unwrap_or(0)),
             "bytes" => bytes_case(id, len, &pat),
             "typed" => typed_case(id, len, nsend, nrecv, nshm, &pat, a.get("prefail").map(|s| s == "1").unwrap_or(false)),
             _ => json!({"error":"level"}),
@@ -79,7 +79,7 @@ pub fn run() {
     }
 }
 
-fn platform_case(id: u64, len: usize, nsend: usize, nrecv: usize, nshm: usize, pat: &str) -> serde_json::Value {
+fn platform_case(id: u64, len: usize, nsend: usize, nrecv: usize, nshm: usize, pat: &str, rintr: i64) -> serde_json::Value {
     let fds_before = open_fds().len();
     let data = payload(id, len);
     let (tx, rx) = platform::channel().unwrap();
@@ -105,7 +105,10 @@ fn platform_case(id: u64, len: usize, nsend: usize, nrecv: usize, nshm: usize, p
     let (rtx, rrx) = crossbeam_channel::bounded(1);
     let h = std::thread::spawn(move || {
         mark(&format!("recv {}", id));
+        // rintr = k: the receiver's k-th read of a follow-up fragment is interrupted by a signal (EINTR)
+        recv_eintr(rintr);
         let r = rx.recv();
+        recv_eintr(0);
         mark(&format!("endrecv {}", id));
         let _ = rtx.send(r.map_err(|e| std::io::Error::from(e)));
         rx
